@@ -38,6 +38,9 @@ CHECKS.update({
  "C11": ("exploration","runtime monitor: per-response invariants over repeated identical queries from 16 goroutines, chi-square goodness-of-fit of selection counts (alarm below p=1e-9), race-detector child run",
          "For generated weighted address sets (weights incl. 0 and 2^32-1, locations, wildcard owners, NS/MX targets) every response of up to 4e5 repeated queries per configuration is checked for bound, distinctness, soundness, exact count min(max, positive-weight candidates), weight-0 exclusion and NOERROR; selection frequencies for max=1 and for additional-section addresses are tested against w_i/sum(w); the same workload runs under the Go race detector.",
          "Proportionality is statistical (false alarm < 1e-9 per configuration); the 2^-32 boundary draws of the implementation are tolerated once per configuration and re-run.","4/C11"),
+ "C04": ("exploration","metamorphic runtime monitor: responses before/after edits confined to a foreign location (or an unbound map) must be identical on three storage configurations",
+         "For each generated file F builds F' by adding/deleting only records tagged with a foreign location right next to the existing data (same owners, children, apexes as SOA/NS, wildcards, new delegations, glue) and by adding subnets of a map bound to no name; F and F' are compiled to CDB and RocksDB v1/v2 and every generated query from every client not located in the foreign location must get the identical canonical response.",
+         "No model of the answers is needed; clients in the foreign location are skipped. Random address selection neutralised with max-answer >= candidates.","4/C04"),
 })
 BUILT = set(CHECKS)
 ALL = [json.loads(l)["id"] for l in open("properties.jsonl")]
